@@ -1,8 +1,268 @@
 import DaeVerif.C06.Proofs
+/-!
+# C06 — property theorems
+
+"Sniffing finds the name that is there and never alters or withholds payload."
+
+Only statements a reader should audit live here (namespace `DaeVerif.C06.Props`); the definitions
+they mention are in `Model.lean` (the mirror of the Go code, the very definitions the driver
+`c06drv` executes) and `Spec.lean` (wire encoders written from the RFCs, the documented answers,
+and the notions `CarriedIn`, `Within`, `covers`, `feedPayloads`, `tcpAnswer`, `isNameChar`).
+Helper lemmas are in `Proofs.lean`.  Every theorem is followed by a non-vacuity `example`.
+-/
 namespace DaeVerif.C06.Props
 open DaeVerif.C06
 
-/-- placeholder while the tie is brought up -/
-theorem clientBytes_nil : clientBytes [] = [] := rfl
+/-! ## TLS: the name that is there is found -/
+
+/-- **Completeness (TLS).** For every ClientHello a TLS 1.2/1.3 client can emit — any extension
+order, GREASE/unknown/padding extensions, any session id, several SNI entries or extensions —
+wrapped in one record (whatever follows it in the buffer), `SniffTls` answers the first
+`host_name` it carries (one trailing dot removed), "not found" when it carries none. -/
+theorem tls_sni_found (ch : ClientHello) (hwf : ch.WF) (recMinor : Nat) (extra : Bytes) :
+    sniffTls (record recMinor (handshake ch) ++ extra) = specResult ch := by
+  rw [sniffTls_record_append]
+  exact extractSni_encode _ ch hwf (reads_builtin _) rfl (sliceOk_builtin _)
+
+/-- a hello with GREASE, an SNI list whose first entry is not a host_name, padding, and an empty
+last extension: well-formed, and the documented answer is the carried name without its dot -/
+def exampleHello : ClientHello :=
+  ⟨3, List.replicate 32 7, [1, 2, 3], [0x13, 0x01], [0],
+    some [.other 0x0a0a [], .sni [(5, [120]), (0, str "Example.org.")], .other 21 [0, 0, 0], .other 35 []]⟩
+
+theorem exampleHello_wf : exampleHello.WF := by
+  refine ⟨by decide, by decide, by decide, ?_⟩
+  intro es hes e he t d hd
+  cases hes
+  simp only [List.mem_cons, List.not_mem_nil, or_false] at he
+  rcases he with rfl | rfl | rfl | rfl <;> cases hd <;> decide
+
+example : exampleHello.WF ∧ specResult exampleHello = .ok (str "Example.org") := ⟨exampleHello_wf, by decide⟩
+
+/-- **Soundness (TLS).** Whatever the bytes, a name reported by `SniffTls` is literally a
+`host_name` entry of the buffer (type byte 0, two-byte length, the name; one trailing dot removed):
+the sniffer never invents or garbles a name. -/
+theorem tls_sni_sound (buf d : Bytes) (h : sniffTls buf = .ok d) : CarriedIn buf d :=
+  sniffTls_sound buf d h
+
+example : ∃ buf d, sniffTls buf = .ok d :=
+  ⟨record 1 (handshake exampleHello) ++ [], str "Example.org", by rw [tls_sni_found exampleHello exampleHello_wf]; decide⟩
+
+/-- **No out-of-bounds access, no panic (TLS).** For every byte string the walk over record,
+handshake and extension fields stays inside the data: `extractSniFromTls` on the builtin locator
+either answers a name or one of the two sniffing errors — never `oob` (an index past the end;
+in Go: a panic or a read of stale buffer bytes). -/
+theorem tls_total (b : Bytes) :
+    (∃ d, extractSni (.builtin b) = .ok d) ∨ extractSni (.builtin b) = .error .notApplicable ∨
+      extractSni (.builtin b) = .error .notFound := by
+  cases h : extractSni (.builtin b) with
+  | ok d => exact Or.inl ⟨d, rfl⟩
+  | error e => rcases extractSni_builtin_err b e h with rfl | rfl <;> simp
+
+/-- the regression of fix 329a199: a server_name extension with one byte of data that ends the
+extension block is answered "not applicable" without touching the byte after the data -/
+example : findSniFrom (.builtin [0, 21, 0, 1, 0, 0, 0, 0, 1, 7]) 0 = .error .notApplicable := by
+  rw [findSniFrom]
+  simp [Loc.len, Loc.range, slice, be16]
+  rw [findSniFrom]
+  simp [Loc.len, Loc.range, slice, be16]
+
+/-- `SniffTls` itself only ever fails with one of its three sniffing errors. -/
+theorem tls_record_total (buf : Bytes) (e : Err) (h : sniffTls buf = .error e) :
+    e = .notApplicable ∨ e = .needMore ∨ e = .notFound := sniffTls_err buf e h
+
+/-! ## The stream sniffer: chunking, timeout, and what the relay gets -/
+
+/-- **Chunk invariance.** A well-formed ClientHello record is recognised however it is cut into
+reads, once the first read has brought its 5-byte record header: whatever the cut points, whatever
+follows the record (`extra`) or the script (`tail`), `SniffTcp` gives the answer it gives for the
+whole record — the carried name through `NormalizeDomain`. -/
+theorem sniff_tcp_chunk_invariant (ch : ClientHello) (hwf : ch.WF) (recMinor : Nat)
+    (c : Bytes) (cs : List Bytes) (extra : Bytes) (tail : List Ev)
+    (hflat : (c :: cs).flatten = record recMinor (handshake ch) ++ extra) (h5 : 5 ≤ c.length) :
+    (sniffTcp (((c :: cs).map Ev.data) ++ tail)).result = tcpAnswer ch := by
+  unfold sniffTcp
+  rw [sniffLoop_chunks recMinor (handshake ch) (c :: cs) [] extra tail false (by simpa using hflat)
+    (by simp [record_length]; omega) (Or.inl ⟨rfl, c, cs, rfl, h5⟩)]
+  exact tlsAnswer_handshake ch hwf
+
+example : (sniffTcp (([(record 1 (handshake exampleHello)).take 7, (record 1 (handshake exampleHello)).drop 7].map Ev.data)
+      ++ [.stall])).result = .ok (str "example.org") := by
+  rw [sniff_tcp_chunk_invariant exampleHello exampleHello_wf 1 _ _ [] _ (by decide) (by decide)]
+  decide
+
+/-- `NormalizeDomain` leaves an ordinary host name alone: it only lower-cases it and removes one
+trailing dot (so the reported name *is* the carried name). -/
+theorem normalize_ordinary_name (n : Bytes) (h : ∀ c ∈ n, isNameChar c = true) :
+    normalizeDomain n = trimDot (lower n) := normalizeDomain_name n h
+
+example : (∀ c ∈ str "Example.ORG.", isNameChar c = true) ∧ normalizeDomain (str "Example.ORG.") = str "example.org" := by
+  decide
+
+/-- **Byte fidelity, every outcome.** Whatever the client does (any script of arriving chunks,
+stalls past the sniffing deadline, EOF, reset) and whatever `SniffTcp` answered — name, not found,
+not applicable, timed out, connection error — each of the four ways the relay consumes the
+sniffed connection hands over exactly the bytes the client sent, in order, and ends the way the
+client's stream ends. -/
+theorem relay_identity (script : List Ev) (d : Drain) :
+    relayBytes (sniffTcp script) d = (clientBytes script, clientEnd script) := by
+  unfold sniffTcp
+  rw [relay_sniffLoop]; simp
+
+/-- the regression of fix 9872939: header + a little, the deadline passes, the rest arrives later;
+the sniff times out and the relay still gets every byte through `Read` -/
+example : (sniffTcp [.data [22, 3, 1, 0, 100, 1, 0, 0], .stall, .data [82, 69, 83, 84], .eof]).result = .error .timeout ∧
+    relayBytes (sniffTcp [.data [22, 3, 1, 0, 100, 1, 0, 0], .stall, .data [82, 69, 83, 84], .eof]) .prefixRead
+      = ([22, 3, 1, 0, 100, 1, 0, 0, 82, 69, 83, 84], none) := by decide
+
+/-- **The sniffer does not wait past its deadline.** If nothing arrives before the armed read
+deadline the loop ends there with the timeout answer; it consumed nothing after the stall and left
+no error latched for the relay. -/
+theorem sniff_stops_at_deadline (buf : Bytes) (nm : Bool) (rest : List Ev) :
+    sniffLoop buf nm (.stall :: rest) = ⟨.error .timeout, nm, buf, none, rest⟩ := rfl
+
+/-! ## HTTP/1 -/
+
+/-- **Completeness (HTTP).** For every request head with a known method, arriving in one read,
+`SniffHttp` answers the value of the first `Host` header (any case of the name, white space
+trimmed), "not found" when there is none or it is empty — headers in any order, any other
+headers, any body. -/
+theorem http_host_found (h : HttpHead) (hwf : h.WF) : sniffHttp (encodeHead h) = hostSpec h.headers :=
+  sniffHttp_encodeHead h hwf
+
+def exampleHead : HttpHead :=
+  ⟨str "GET", str "http://x/ HTTP/1.1", [(str "Accept", str " */*"), (str "hOsT ", str "  a.example:8080 "), (str "Host", str "b")],
+    str "Host: c\r\n"⟩
+
+example : exampleHead.WF ∧ hostSpec exampleHead.headers = .ok (str "a.example:8080") ∧
+    (sniffTcp [.data (encodeHead exampleHead)]).result = .ok (str "a.example") := by
+  refine ⟨⟨by decide, by decide, ?_⟩, by decide, by decide⟩
+  intro kv hkv
+  simp only [exampleHead, List.mem_cons, List.not_mem_nil, or_false] at hkv
+  rcases hkv with rfl | rfl | rfl <;> decide
+
+/-! ## QUIC -/
+
+/-- **Soundness (QUIC).** Whatever CRYPTO blocks have been collected so far — partial, with gaps,
+in any order — as long as each is a slice of the client's CRYPTO stream `S`, a name the locator
+walk reports is literally a `host_name` entry of `S`. -/
+theorem quic_sni_sound (S : Bytes) (blocks : List Block) (hw : ∀ b ∈ blocks, Within S b) (d : Bytes)
+    (h : extractSni (newLinear blocks) = .ok d) : CarriedIn S d :=
+  extractSni_linear_sound S blocks hw d h
+
+/-- **Reassembly never corrupts.** Packet payloads may carry any frames that parse; if every
+CRYPTO frame is a slice of `S`, every block kept after any number of `ReassembleCryptos` steps
+(sorting, merging overlaps and duplicates) is again a slice of `S`. -/
+theorem reassembly_keeps_slices (S : Bytes) (flight : List (Bytes × List Block))
+    (hparse : ∀ pf ∈ flight, parseFrames pf.1.length pf.1 = .ok pf.2)
+    (hw : ∀ pf ∈ flight, ∀ b ∈ pf.2, Within S b) (cr : List Block)
+    (h : feedPayloads [] (flight.map Prod.fst) = .ok cr) : ∀ b ∈ cr, Within S b :=
+  feed_within S flight hparse hw [] cr (by simp) h
+
+/-- **Completeness (QUIC).** Take any ClientHello a QUIC client can emit and cut its handshake
+message into CRYPTO frames any way at all — any sizes, any order, duplicates and overlaps, PADDING
+and PING frames in between, any varint widths, spread over any number of packets (hence
+datagrams): if together the frames cover the message, then after the last packet the reassembled
+stream is the message itself and the locator walk answers the carried name. -/
+theorem quic_flight_found (ch : ClientHello) (hwf : ch.WF) (flight : List (List Item × Nat))
+    (hfit : ∀ p ∈ flight, ∀ it ∈ p.1, it.frame.Fits)
+    (hw : ∀ p ∈ flight, ∀ b ∈ cryptoBlocks p.1, Within (handshake ch) b)
+    (hcov : ∀ q, q < (handshake ch).length → ∃ p ∈ flight, ∃ b ∈ cryptoBlocks p.1, covers b q) :
+    ∃ cr, feedPayloads [] (flight.map fun p => encodeItems p.1 p.2) = .ok cr ∧
+      extractSni (newLinear cr) = specResult ch := by
+  have hpos : 0 < (handshake ch).length := by simp [handshake]
+  let fl : List (Bytes × List Block) := flight.map fun p => (encodeItems p.1 p.2, cryptoBlocks p.1)
+  have hmap : fl.map Prod.fst = flight.map fun p => encodeItems p.1 p.2 := by
+    simp [fl, List.map_map, Function.comp_def]
+  have hmem : ∀ pf ∈ fl, ∃ p ∈ flight, pf = (encodeItems p.1 p.2, cryptoBlocks p.1) := by
+    intro pf hpf
+    simp only [fl, List.mem_map] at hpf
+    obtain ⟨p, hp, rfl⟩ := hpf
+    exact ⟨p, hp, rfl⟩
+  refine ⟨[⟨0, handshake ch⟩], ?_, extractSni_complete ch hwf⟩
+  rw [← hmap]
+  apply feed_complete_aux (handshake ch) hpos fl
+  · intro pf hpf
+    obtain ⟨p, hp, rfl⟩ := hmem pf hpf
+    exact parseFrames_encode p.1 p.2 (hfit p hp) _ (Nat.le_refl _)
+  · intro pf hpf
+    obtain ⟨p, hp, rfl⟩ := hmem pf hpf
+    exact hw p hp
+  · simp
+  · simp [Separated]
+  · intro q hq
+    obtain ⟨p, hp, b, hb, hc⟩ := hcov q hq
+    exact Or.inr ⟨(encodeItems p.1 p.2, cryptoBlocks p.1), by simp only [fl, List.mem_map]; exact ⟨p, hp, rfl⟩, b, hb, hc⟩
+
+/-- a three-frame flight over two packets: tail first, then (after padding) an overlapping middle
+piece with 2- and 4-byte varints and the head; the name is found after the second packet only -/
+def exampleFlight : List (List Item × Nat) :=
+  let S := handshake exampleHello
+  [ ([⟨3, .crypto 60 (S.drop 60) 1 0⟩, ⟨0, .ping⟩], 5),
+    ([⟨1, .crypto 20 (slice S 20 70) 1 2⟩, ⟨2, .crypto 0 (S.take 25) 0 1⟩], 0) ]
+
+example : feedPayloads [] ((exampleFlight.take 1).map fun p => encodeItems p.1 p.2) = .ok [⟨60, (handshake exampleHello).drop 60⟩] ∧
+    (∃ e, extractSni (newLinear [⟨60, (handshake exampleHello).drop 60⟩]) = .error e) ∧
+    feedPayloads [] (exampleFlight.map fun p => encodeItems p.1 p.2) = .ok [⟨0, handshake exampleHello⟩] ∧
+    extractSni (newLinear [⟨0, handshake exampleHello⟩]) = .ok (str "Example.org") := by
+  refine ⟨by decide, ⟨.missingCrypto, by decide⟩, by decide, ?_⟩
+  rw [extractSni_complete exampleHello exampleHello_wf]
+  decide
+
+/-- **The datagram is handed on unaltered.** `sniffQuicBlock` lets `DecryptQuic_` rewrite, in
+place, the first byte and the four packet-number bytes of the buffered datagram (to any values)
+and puts back the saved copies afterwards: the buffer is byte for byte what it was. -/
+theorem unprotect_then_restore (buf : Bytes) (pnOff f0 : Nat) (pn : Bytes) (h1 : 1 ≤ pnOff)
+    (h2 : pnOff + 4 ≤ buf.length) (hpn : pn.length = 4) :
+    restoreHeader (unprotectInPlace buf pnOff f0 pn) pnOff (buf.getD 0 0) (slice buf pnOff (pnOff + 4)) = buf :=
+  unprotect_restore buf pnOff f0 pn h1 h2 hpn
+
+example : unprotectInPlace [0xc3, 0, 0, 0, 1, 9, 9, 9, 9, 5] 5 0xc0 [0, 0, 0, 2] = [0xc0, 0, 0, 0, 1, 0, 0, 0, 2, 5] ∧
+    restoreHeader [0xc0, 0, 0, 0, 1, 0, 0, 0, 2, 5] 5 0xc3 [9, 9, 9, 9] = [0xc3, 0, 0, 0, 1, 9, 9, 9, 9, 5] := by decide
+
+/-- **Datagrams are kept as they came, in order.** Neither appending nor sniffing changes a
+datagram the packet sniffer already holds; `Data()` is the empty first element followed by the
+appended datagrams in ingress order. -/
+theorem udp_data_kept (oracle : List Sealed) (s : Pkt) (d : Bytes) :
+    (s.append d).data = s.data ++ [d] ∧ ((s.append d).sniffUdp oracle).2.data = s.data ++ [d] := by
+  refine ⟨rfl, ?_⟩
+  unfold Pkt.sniffUdp
+  split
+  · rfl
+  split
+  · rfl
+  split
+  · rfl
+  simp only []
+  split
+  · rfl
+  · split <;> rfl
+
+/-- **A final answer is never withheld.** After `SniffUdp`, the flow is asked to wait for more
+datagrams only while the ClientHello is still incomplete: once the reassembled CRYPTO stream holds
+the whole handshake message, "not found" (or any other failure) is final and the buffered
+datagrams are released (fix 0baaa0d). -/
+theorem udp_not_withheld_when_complete (oracle : List Sealed) (s : Pkt) (d : Bytes)
+    (h : helloComplete (((s.append d).sniffUdp oracle).2.cryptos) = true) :
+    ((s.append d).sniffUdp oracle).2.needMore = false := by
+  revert h
+  unfold Pkt.sniffUdp
+  split
+  · intro _; rfl
+  split
+  · intro _; rfl
+  split
+  · intro _; rfl
+  simp only []
+  split
+  · intro _; rfl
+  · split
+    · intro h; simp only [] at h ⊢; rw [h]; rfl
+    · intro _; rfl
+
+/-- a complete ClientHello without any server_name: the stream is complete, the answer final -/
+example : helloComplete [⟨0, handshake ⟨3, List.replicate 32 0, [], [0x13, 1], [0], some [.other 43 [2, 3, 4]]⟩⟩] = true ∧
+    specResult ⟨3, List.replicate 32 0, [], [0x13, 1], [0], some [.other 43 [2, 3, 4]]⟩ = .error .notFound := by
+  decide
 
 end DaeVerif.C06.Props
